@@ -39,7 +39,8 @@ LEVEL_TEXT = ("Every document of the finite family (4 detector types x 3 modes x
               "with the description that generated the text; both constructions are executed with pyxel.run_mode and "
               "the result trees compared node by node. All 128 presence patterns are decided on both construction "
               "paths. Every (quantity, boundary value, path, detector type) cell of the range table is executed and "
-              "compared with the verdict of the documented range.")
+              "compared with the verdict of the documented range."
+              " Assignment path yaml-exp writes the value in exponent notation without a decimal point (loaded as text by PyYAML); one pipeline palette repeats a model name inside a group.")
 LEVEL_NOTE = ("Bounded: palettes of values, one pipeline shape with probe models, detector 2x3; ranges are taken from the "
               "constructors' messages / docstrings and the property statement (inclusive bounds, temperature and array "
               "sizes strictly positive). Trusted: PyYAML's safe_dump writes the description faithfully. Calibration "
